@@ -287,6 +287,33 @@ func (d directBRR) ReadByte() (byte, error) {
 	}
 }
 
+// stallWriter is the server's side of the request stream. When armed (op `stall <ms>`) it sleeps once AFTER the
+// next Write call has been delivered - that call is the varint length of the next message, agent.WriteMessage
+// follows it with a second Write for the payload - so that a keepalive falls due while the write loop is in the
+// middle of a message: a stream that is slow or under back pressure. It also records the size of every Write call.
+type stallWriter struct {
+	w      io.WriteCloser
+	mu     sync.Mutex
+	armMs  int
+	stalls int
+}
+
+func (sw *stallWriter) Write(p []byte) (int, error) {
+	n, err := sw.w.Write(p)
+	sw.mu.Lock()
+	ms := sw.armMs
+	sw.armMs = 0
+	if ms > 0 {
+		sw.stalls++
+	}
+	sw.mu.Unlock()
+	if ms > 0 {
+		time.Sleep(time.Duration(ms) * time.Millisecond)
+	}
+	return n, err
+}
+func (sw *stallWriter) Close() error { return sw.w.Close() }
+
 func noZeros(p []int) []int {
 	// bufio gives up after 100 empty reads in a row; patterns keep empty reads isolated
 	out := make([]int, 0, len(p))
@@ -318,6 +345,7 @@ type session struct {
 	agDone   chan struct{}
 	respPipe *io.PipeReader
 	agErr    error
+	sw       *stallWriter
 }
 
 func newSession(reqPat, respPat, bufioMode, kaMs string) (*session, string) {
@@ -338,7 +366,8 @@ func newSession(reqPat, respPat, bufioMode, kaMs string) (*session, string) {
 	s.h = &echoHandler{a: s.ag}
 	s.ag.Handler = s.h
 	var once sync.Once
-	s.srv = udf.NewServer("task", "node", serverIn, w1, s.diag, time.Duration(s.kaMs)*time.Millisecond,
+	s.sw = &stallWriter{w: w1}
+	s.srv = udf.NewServer("task", "node", serverIn, s.sw, s.diag, time.Duration(s.kaMs)*time.Millisecond,
 		func() {
 			// like UDFNode.abortedCallback: signal, then wait until the feeder has stopped writing to In()
 			once.Do(func() { close(s.aborted) })
@@ -589,6 +618,13 @@ func execCase(ops []string) (out []string) {
 				}
 				return got + " ok"
 			})
+		case "stall":
+			// the request stream stalls for <ms> between the two Write calls of the next message
+			ms, _ := strconv.Atoi(t[1])
+			s.sw.mu.Lock()
+			s.sw.armMs = ms
+			s.sw.mu.Unlock()
+			out = append(out, line)
 		case "sleep":
 			ms, _ := strconv.Atoi(t[1])
 			time.Sleep(time.Duration(ms) * time.Millisecond)
